@@ -19,6 +19,7 @@ import twin_checks
 import recwarm_checks
 import litenum_checks
 import copyopt_checks
+import overrides_checks
 
 CORE_A = ["Model/Base.v", "Model/Dispatch.v", "Model/Routing.v", "Model/DispLane.v", "Gen/DispatchSrc.v", "Gen/ConvSrc.v",
           "Proofs/DispatchProofs.v", "Proofs/RoutingProofs.v", "Proofs/SrcObligations.v"]
@@ -60,6 +61,7 @@ def _c04(v, b, tier):
     cycle_checks.cycle_battery(v, "C04", 150 * SIZES[tier])
     cycle_checks.generic_battery(v, "C04", 60 * SIZES[tier])
     union_checks.union_battery(v, "C04", 50 * SIZES[tier])
+    overrides_checks.iter_battery(v, 0)
 
 
 def _c09(v, b, tier):
@@ -139,6 +141,7 @@ def _conv(prop, base):
             litenum_checks.litenum_battery(v, prop, 40 * SIZES[tier])
         if prop == "C03":
             copyopt_checks.copyopt_battery(v, prop, 60 * SIZES[tier])
+            overrides_checks.overrides_battery(v, 32)
         if prop == "C06":
             tpl_checks.key_modes_classes(v, v.coverage.setdefault("key_modes", {}))
     return run
